@@ -311,6 +311,9 @@ class CallMixin:
         done = st.ghost.setdefault("__unfolded", set())
         abstract = len(sf.node.body) >= 1 and isinstance(sf.node.body[-1], ast.Expr) and isinstance(sf.node.body[-1].value, ast.Constant) \
             and sf.node.body[-1].value.value is Ellipsis
+        cur = self.contracts.get(self.current_target) if self.current_target else None
+        if cur is not None and sf.name in (cur.options.get("no_unfold") or ()) and st.fuel <= 1:
+            abstract = True       # this function's proof treats the symbol as opaque (it only matches applications syntactically)
         if key not in done and st.fuel > 0 and not abstract:
             done.add(key)
             st.fuel -= 1
@@ -453,9 +456,14 @@ class CallMixin:
             return zbool(self.is_(st, v, NONE))
         if name == "arr_get":
             a = self.ev_spec(st, A[0])
+            if not isinstance(a, Arr):
+                a = self.seq_to_arr(st, a)
             return zint(a.a[self.as_int(st, self.ev_spec(st, A[1]))])
         if name == "arr_len":
-            return zint(self.ev_spec(st, A[0]).n)
+            a = self.ev_spec(st, A[0])
+            if not isinstance(a, Arr):
+                a = self.seq_to_arr(st, a)
+            return zint(a.n)
         if name == "pw2":
             return zint(smt.pow2_term(self.as_int(st, self.ev_spec(st, A[0]))))
         if name == "cls_name":
@@ -537,6 +545,8 @@ class CallMixin:
             return zint(idx[k])
         if name == "world":
             return st.ghost["__world"]
+        if name == "empty_options":
+            return self.empty_dictlike(st, ast.literal_eval(A[0]))
         if name == "fn_name":
             f = self.ev_spec(st, A[0])
             if isinstance(f, Func):
